@@ -5,6 +5,7 @@ import (
 	"fmt"
 	"math/rand"
 	"net"
+	"os"
 	"sort"
 	"strconv"
 	"strings"
@@ -13,6 +14,7 @@ import (
 
 	"github.com/fatedier/frp/pkg/msg"
 	"github.com/fatedier/frp/pkg/proto/udp"
+	frplog "github.com/fatedier/frp/pkg/util/log"
 )
 
 // Engine "udp" (property C03).
@@ -106,7 +108,12 @@ func addrEq(a, b *net.UDPAddr) bool {
 	return a.String() == b.String()
 }
 
+var udpQuiet sync.Once
+
 func udpExec(tok []string) string {
+	// frp's console logger writes to stdout, where the trace goes: error-level lines of the real code
+	// (e.g. "sudp work write error" when a sender meets the connection closed under it) are not results
+	udpQuiet.Do(func() { frplog.InitLogger(os.DevNull, "error", 0, true) })
 	switch tok[0] {
 	case "reset":
 		return "-"
@@ -160,6 +167,12 @@ func udpExec(tok []string) string {
 		return sudpExec(tok)
 	case "spx":
 		return spxExec(tok)
+	case "cpx":
+		return cpxExec(tok)
+	case "e2ev":
+		return e2evExec(tok)
+	case "batch":
+		return batchExec(tok)
 	case "tunnel":
 		ps := atoi(strings.TrimPrefix(tok[1], "ps="))
 		k := atoi(strings.TrimPrefix(tok[2], "k="))
@@ -526,6 +539,9 @@ func genTunnel(rng *rand.Rand, ps, k, nd, maxLen int, emit func(string)) {
 
 func udpGen(rng *rand.Rand, n int, emit func(string)) {
 	emit("reset")
+	// (0) first, so that a failure is found in a short prefix: batches of decoded payloads that are all kept, the
+	// client side of a sudp proxy with several work connections alive at once (scripted, and behind real visitors + frps)
+	pxGen(rng, n, emit)
 	// (a) codec: every length 0..2048 once (scaled down for small n), then random sizes up to 64 KiB
 	top := 2048
 	if n < 4000 {
